@@ -2,6 +2,7 @@ import ParryModel.Field
 import ParryModel.C01.Model
 import ParryModel.C01.Lemmas
 import ParryModel.C01.TheoremsGjk
+import ParryModel.C01.TheoremsGlue
 /-!
 # C01 property theorems: distance / closest points are the true minimum separation.
 
@@ -1202,5 +1203,33 @@ theorem segSegParams_optimal2 (a1 b1 a2 b2 : V2 K) (hex : SegExact2 sq a1 b1 a2 
   simp only [V2.sub, V2.add, V2.smul, V2.normSq, V2.dot]
   rw [e1, e2]
   linarith
+
+
+/-! ## 8. end to end: `query::closest_points` in world space (routing + kernel + `transform_by`) -/
+
+/-- **`query::closest_points(pos1, segment1, pos2, segment2, max_dist)`, world space, full statement.** For unit quaternions
+(and the tolerance tests of the kernel exact on the relative placement, `SegExact3`): `WithinMargin(w1, w2)` ⇒ `w1`, `w2` are
+images of points of the two segments under their own poses, no pair of world points of the two segments is closer, and the gap
+is `≤ max_dist`; `Disjoint` ⇒ every world pair is farther than `max_dist`; `Intersecting` is never answered on this route
+(known finding). Goes through the dispatcher's routing, `pos1.inv_mul(pos2)`, the kernel and `transform_by`. -/
+theorem closestPointsWorld3_segment_segment (pos1 pos2 : Iso3 K) (a1 b1 a2 b2 : V3 K) (m : K) (w : CP (V3 K))
+    (h1 : C03.Unit3 pos1) (h2 : C03.Unit3 pos2) :
+    letI := fieldNum K sq
+    letI := fieldBits K
+    SegExact3 sq a1 b1 ((pos1.invMul pos2).act a2) ((pos1.invMul pos2).act b2) →
+    Glue.closestPointsWorld3 pos1 (.segment a1 b1) pos2 (.segment a2 b2) m = some w →
+    WorldSpec sq (SegAt sq a1 b1) (SegAt sq a2 b2) pos1 pos2 m w := by
+  letI := fieldNum K sq
+  letI := fieldBits K
+  intro hex hw
+  refine closestPointsWorld3_spec sq _ _ pos1 pos2 _ _ m w h1 h2 ?_ hw
+  intro r hr
+  have hspec := closestPointsSegmentSegment_spec sq (pos1.invMul pos2) a1 b1 a2 b2 m hex
+  simp only [Glue.dispatchCP3, Option.some.injEq] at hr
+  rw [hr] at hspec
+  cases r with
+  | intersecting => exact hspec.elim
+  | within p1 p2 => exact hspec
+  | disjoint => exact hspec
 
 end C01
